@@ -14,8 +14,10 @@
                             buffer sizes it reaches the end (the caller's loop "read until 0" does exactly that)
      wf_spec sp             the format's own ranges: name UTF-8 and already sanitised, times < 2^64, permission fields in
                             range, xattr name UTF-8, extra chunks not of a type the entry grammar owns
-     fits e                 every chunk of the serialised entry fits the 32-bit length field; extra chunks are no
-                            terminators
+     fits e                 name, PHSF string, extra chunks and xattrs fit the 32-bit length field of their chunk; extra
+                            chunks are no terminators.  Nothing is asked of the data payloads: into_chunks cuts a
+                            payload of 2^32 bytes or more into several FDAT chunks (Props/C14_sink.v C01_fits_unfolded;
+                            `normalize` = the payloads cut at u32::MAX, C01_normalize_data)
      wf_job pw j            wf_spec, wf_ctx, the writes make up the content, fits
    They are shown satisfiable below by concrete values, and the theorems are instantiated with the executable
    AES-256 / Camellia-256 of Model/Aes.v, Model/Camellia.v (the instance the pipeline area runs against the Rust
